@@ -7,6 +7,7 @@ import (
 	"sync"
 	"time"
 
+	"github.com/google/uuid"
 	"go.dedis.ch/onet/v3"
 	"go.dedis.ch/onet/v3/network"
 	"onetverif/harness/fix"
@@ -61,6 +62,24 @@ func c12roster(hosts []int) *onet.Roster {
 	}
 	c12rosters[k] = r
 	return r
+}
+
+// c12zroster: a roster whose identities were not made by network.NewServerIdentity - their
+// deprecated ID field is unset: struct literals, or a roster that went through its TOML form
+// (Roster.Toml / RosterToml.Roster). Server i has key (off+i+1)·G.
+func c12zroster(off int, hosts []int, viaToml bool) *onet.Roster {
+	var sis []*network.ServerIdentity
+	c12mu.Lock()
+	for i, hst := range hosts {
+		si := c12si(off+i, hst)
+		sis = append(sis, &network.ServerIdentity{Public: si.Public, Address: si.Address})
+	}
+	c12mu.Unlock()
+	ro := onet.NewRoster(sis)
+	if viaToml {
+		ro = ro.Toml(fix.Suite).Roster(fix.Suite)
+	}
+	return ro
 }
 
 func c12dump(t *onet.Tree) string {
@@ -167,6 +186,9 @@ func c12walk(ro *onet.Roster, t *onet.Tree, w c12want) (string, string, bool) {
 				if len(nd.Children) < w.N {
 					short = true
 				}
+			}
+			if nd.ID != onet.TreeNodeID(uuid.NewSHA1(uuid.NameSpaceURL, []byte(nd.ServerIdentity.Public.String()))) {
+				return "node-id-not-from-key", fmt.Sprintf("the id of the node on roster member %d is not the one derived from that server's public key", nd.RosterIndex), false
 			}
 			members[nd.RosterIndex]++
 			ids[nd.ID]++
@@ -373,6 +395,59 @@ func c12exec(c *h.Ctx, cs *h.Case) {
 					gen = "nary"
 				}
 				check(ro, t, c12want{gen, nsrv, bf, nodes, 0, tk[1] == "lt.tree"}, "")
+			case (len(tk) == 5 && tk[1] == "znary") || (len(tk) == 6 && tk[1] == "zbig"):
+				// the generators over identities whose ID field is unset; `off` moves the keys, so that
+				// the rosters of one case differ
+				off, ok0 := atoi(tk[2])
+				if !ok0 || off > 1000000 {
+					return
+				}
+				if tk[1] == "znary" {
+					n, ok1 := atoi(tk[3])
+					N, ok2 := atoi(tk[4])
+					if !ok1 || !ok2 || n == 0 || n > 4096 {
+						return
+					}
+					ro := c12zroster(off, distinct(n), (off+n+N)%2 == 0)
+					var t *onet.Tree
+					switch (off + n) % 3 {
+					case 0:
+						t = ro.GenerateNaryTree(N)
+					case 1:
+						t = ro.GenerateNaryTreeWithRoot(N, nil)
+					default:
+						// a root given by value: Search compares the ID fields, which are all unset -
+						// the first server matches
+						t = ro.GenerateNaryTreeWithRoot(N, &network.ServerIdentity{Public: ro.List[0].Public, Address: ro.List[0].Address})
+					}
+					if t == nil {
+						obs = "none"
+					} else {
+						obs = c12dump(t)
+					}
+					check(ro, t, c12want{"nary", n, N, n, 0, true}, "")
+					return
+				}
+				N, ok1 := atoi(tk[3])
+				nodes, ok2 := atoi(tk[4])
+				var hosts []int
+				ok3 := true
+				for _, f := range strings.Split(tk[5], ",") {
+					v, ok := atoi(f)
+					ok3 = ok3 && ok
+					hosts = append(hosts, v)
+				}
+				if !ok1 || !ok2 || !ok3 || N == 0 || nodes > 100000 {
+					return
+				}
+				ro := c12zroster(off, hosts, (off+N+nodes)%2 == 0)
+				t := ro.GenerateBigNaryTree(N, nodes)
+				if t == nil {
+					obs = "none"
+				} else {
+					obs = c12dump(t)
+				}
+				check(ro, t, c12want{"big", len(hosts), N, nodes, 0, false}, "")
 			case len(tk) == 5 && tk[1] == "naryk":
 				// the roster by its servers' keys (repeats allowed), the root by key or nil
 				N, ok1 := atoi(tk[2])
@@ -756,6 +831,26 @@ func c12gen(c *h.Ctx, yield func(*h.Case)) {
 		ops = append(ops, fmt.Sprintf("c12 lt.tree %d", 1+r.Intn(c.Pick(8, 20))))
 		emit("localtest wrappers sampled", ops)
 	}
+	// --- identities whose (deprecated) ID field is unset, several different rosters per case --------
+	for i := 0; i < c.Pick(12, 60); i++ {
+		var ops []string
+		off := 0
+		for j := 0; j < 6; j++ {
+			n := 2 + r.Intn(c.Pick(12, 40))
+			switch r.Intn(3) {
+			case 0:
+				ops = append(ops, fmt.Sprintf("c12 znary %d %d %d", off, n, 1+r.Intn(4)))
+			case 1:
+				ops = append(ops, fmt.Sprintf("c12 zbig %d %d %d %s", off, 1+r.Intn(4), n, pattern(r.Intn(4), n))) // use-all
+			default:
+				ops = append(ops, fmt.Sprintf("c12 zbig %d %d %d %s", off, 1+r.Intn(4), 1+r.Intn(2*n), pattern(r.Intn(4), n)))
+			}
+			if r.Intn(3) > 0 {
+				off += 1 + r.Intn(n) // the next roster overlaps this one, or is disjoint from it
+			}
+		}
+		emit("identities without ID field", ops)
+	}
 	// --- the roster by keys: root lookup by key (present, absent, nil), keys in any order ----------
 	for n := 1; n <= c.Pick(8, 14); n++ {
 		perm := r.Perm(3 * n)
@@ -823,6 +918,7 @@ func c12gen(c *h.Ctx, yield func(*h.Case)) {
 		"c12 big 2 x 0,1", "c12 binary 0", "c12 star", "c12 tree 3",
 		"c12 lt.tree 0", "c12 lt.bigtree 3 0 2", "c12 lt.bigtree 3 2", "c12 lt.tree x",
 		"c12 naryk 2 nil", "c12 naryk x nil 1,2", "c12 naryk 2 y 1,2", "c12 naryk 2 1 1,,2", "c12 bigempty 2", "c12 bigempty a 1",
+		"c12 znary 0 0 2", "c12 znary a 3 2", "c12 zbig 0 0 3 0,1", "c12 zbig 0 2 3", "c12 zbig 0 2 x 0,1",
 		"c12 sim 0 2 1 0", "c12 sim 3 2 0 0", "c12 sim 3 2 1 2", "c12 sim 3 2 1", "c12 simlocal 0 2", "c12 simlocal 2", "c12 simnil 3", "c12 simnil a 2"})
 }
 
